@@ -279,8 +279,19 @@ func (c *Check) contextFieldRules(prefix string, which map[string]bool) {
 				counts["update"]++
 				put(prefix+".update", unitConstruct(w.Fn, "not-completed"), hasEq(facts, fieldL(w, "State"), "#types.COMPLETED", true),
 					"updatable fields are written only under State ≠ COMPLETED", pos)
-				_, tw := w.W["Timeout"]
-				_, fw := w.W["RepeatedFrequency"]
+				tv, tw := w.W["Timeout"]
+				fv, fw := w.W["RepeatedFrequency"]
+				// rewriting a field with its own stored value is not a change
+				tw = tw && !tv.Eq(fieldL(w, "Timeout"))
+				fw = fw && !fv.Eq(fieldL(w, "RepeatedFrequency"))
+				// a negative timeout argument is excluded by stateless validation (C10.3 checks the validator)
+				for _, fa := range facts {
+					if fa.Neg && fa.T.Op == "<" && fa.T.A[0].IsAt("#0") && isParamTerm(fa.T.A[1]) && !isUnsigned(fa.T.A[1].Typ) {
+						if facts.Has(Fact{T: mk("==", fa.T.A[1], atom("#0")), Neg: true}) {
+							tw, fw = false, false
+						}
+					}
+				}
 				if tw || fw {
 					fr, to := fieldB(w, "RepeatedFrequency"), fieldB(w, "Timeout")
 					need := normFact(Fact{T: mk("<", fr, mk("conv", atom("uint64"), to)), Neg: true})
